@@ -90,6 +90,15 @@ CHECKS = {
          "both tables' labels, Snowfall's isin filter and recording-by-group for all shapes in the box, plus a direct oracle.",
     ref="6 C16", technique="Rocq proof (counting lemmas + finite case analysis) + exhaustive-small correspondence by vm_compute",
     note=TB % "c16" + "pandas .loc/isin/melt semantics modelled by `relabel`/`filter_vials`; Snowfall run sequentially with Nrep=2."),
+ "C18": dict(
+    cat="proof",
+    text="Model of the recording request (model/Record.v: index lists, substring search of group words in tuple order, 'random'/'uniform' keywords, re.findall digit runs, 10 percent default, "
+         "uniform stride, union of several strings, rejection conditions) and theorems (props/C18.v, axiom-free): index lists record exactly the listed vials and are accepted iff in range; "
+         "'uniform' records a subset of the group and never more than asked; 'random' (numpy's without-replacement contract as hypothesis) exactly as many, all inside the group; stored rows are the "
+         "recorded vials in index order, temperatures first, each row the vial's own entry of the full state (so identical to the 'all' recording). Tied to the code by exact mask / accept-reject "
+         "comparison on random well-formed and malformed requests and by bitwise comparison of stored rows with the 'all' recording.",
+    ref="6 C18", technique="Rocq proof (list/nat arithmetic) + exact mask correspondence by vm_compute + row bit-identity oracle",
+    note=TB % "c18" + "numpy choice contract and python string functions assumed as modelled; the generator restart of run() (C04 fix) makes 'random' recording non-perturbing."),
  "C19": dict(
     cat="proof",
     text="calculateDerived is TRANSLATED on every run (harness/translator.py, fail-closed) into generic Gallina definitions; props/C19.v proves about the generated "
